@@ -87,10 +87,10 @@ def build(repo):
                           "parameter passing / register saving / return-value handling around the block are not under contract"])
     f = SourceFile(repo, "src/generate/generate_statements.rs")
     s0, ob0, cb0 = f.find_fn_span("generate_function_call")
-    blk = f.block(r"^\s*if f\.interrupt\b", r"^\s*self\.flags = FlagsState::Unknown;", s0, cb0, desc="generate_function_call(): interrupt check .. call-tree recording (R8)")
+    blk = f.block(r"^\s*if f\.interrupt\b", r"^\s*let mut return_tmp\b", s0, cb0, desc="generate_function_call(): interrupt check .. call-tree recording .. flags reset (R8)")
     cuts = [blk]
     if "functions_call_tree" not in blk.text:
-        raise Undecided("the block between the interrupt check and `self.flags = FlagsState::Unknown;` no longer contains the call-tree recording")
+        raise Undecided("the block between the interrupt check and `let mut return_tmp` no longer contains the call-tree recording")
     common.r19_filter(blk)
     common.r14_map_or(blk)
     # R16
@@ -120,6 +120,8 @@ def build(repo):
             (res is Ok && old(self).current_function is Some) ==> recorded(old(self).functions_call_tree@, final(self).functions_call_tree@, old(self).current_function->Some_0, var@), //@ C12:call-recorded
             (res is Ok && old(self).current_function is None) ==> final(self).functions_call_tree@ == old(self).functions_call_tree@, //@ C12:call-no-caller
             final(self).current_function == old(self).current_function,
+            // the callee (called or expanded in place) leaves N/Z in a state the generator knows nothing about
+            res is Ok ==> final(self).flags == FlagsState::Unknown, //@ C01,C14:call-forgets-flags
     {
         broadcast use vstd::std_specs::hash::group_hash_axioms;
         proof { axiom_string_key_model(); reveal_strlit("Call"); }
@@ -133,6 +135,6 @@ def build(repo):
     text = common.PRELUDE + common.header_comment(NAME, cuts) + "verus! {\n" + common.DEC_SPECS + specs + fm.text() + \
         "impl<'a> GeneratorState<'a> {\n" + STUBS + fn + "\n}\n" + common.CANARY + "\n} // verus!\n"
     u.text[None] = text
-    u.rewrites = common.collect_rewrites(cuts) + ["R8: block cut between anchors `if f.interrupt {` and `self.flags = FlagsState::Unknown;`; free variables f, var, pos, fixed_bank became parameters"]
+    u.rewrites = common.collect_rewrites(cuts) + ["R8: block cut between anchors `if f.interrupt {` and `let mut return_tmp`; free variables f, var, pos, fixed_bank became parameters"]
     u.dropped = ["everything of generate_function_call outside the block (parameter evaluation, register saving, return value)", "R6 shims"]
     return u
